@@ -193,6 +193,8 @@ pub fn spaces(tier: Tier) -> Vec<Space<'static>> {
         }
         acc.sample(|| json!({"a": format!("{:?}", d.vals[i]), "key_a": hex(ka)}));
     }));
+    let nv = crate::checks::scale::variants().len() as u64;
+    sp.push(Space::new("scale-pairs (big documents and near-copies)", nv, |i, acc| crate::checks::scale::relation_row(i as usize, acc, 2)));
     sp
 }
 
